@@ -1258,3 +1258,28 @@ Proof.
   - exfalso. apply N. simpl in *. lia.
   - exists sk. auto.
 Qed.
+
+(* ---------- example programs used by Props/C14.v ---------- *)
+Definition f_def : funcdef :=
+  {| fn_name := s_ "f"; fn_params := [(s_ "n", TNum)]; fn_variadic := None; fn_ret := TNone;
+     fn_body := [SCallStmt (s_ "print") [EVar (s_ "n") TNum]] |}.
+Definition demo : program :=
+  {| p_funcs := [f_def]; p_handlers := [];
+     p_stmts := [SFor (Some (s_ "i")) TNum (RStep None (ENum 2) None)
+                   [SFor (Some (s_ "j")) TNum (RStep None (ENum 2) None)
+                      [SCallStmt (s_ "f") [EBin BPlus TNum (EVar (s_ "i") TNum) (EVar (s_ "j") TNum)]]];
+                 SCallStmt (s_ "print") [EStr (s_ "done")]] |}.
+Definition demo_run (k : option nat) := run_program 100 demo (init_state k [] false true).
+
+Definition tests_prog : program :=
+  {| p_funcs := []; p_handlers := [];
+     p_stmts := [SCallStmt (s_ "test") [EAny (EBool true) TBool]; SCallStmt (s_ "print") [ENum 1]] |}.
+
+Definition ev_prog : program :=
+  {| p_funcs := [];
+     p_handlers := [{| h_name := s_ "key"; h_params := [(s_ "k", TStr)];
+                       h_body := [SCallStmt (s_ "print") [EVar (s_ "k") TStr]] |}];
+     p_stmts := [] |}.
+
+Definition ex_seven : expr := ENum 7.
+Definition ex_ranger : ranger := RgStep 0 2 1.
